@@ -49,7 +49,8 @@ MULTI = [['new', 1], ['mod', 1], ['mod', 1], ['undo2', 0, 1]]
 
 
 def build(cfg, hist, spec):
-    return world.build('F', [tuple(o) for o in cfg.get('start', [])]
+    return world.build(cfg.get('kind', 'F'),
+                       [tuple(o) for o in cfg.get('start', [])]
                        + list(hist), spec)
 
 
@@ -94,6 +95,8 @@ def quiet(f, *a, **k):
 
 def node(w, hist, cfg, res):
     """(a) + (b) on the source storage of this node."""
+    if cfg.get('kind') == 'M':
+        return m_node(w, hist, cfg, res)
     viol = []
     n = 0
     if not w.model.txns:
@@ -181,6 +184,65 @@ def node(w, hist, cfg, res):
 
 def _next(t):
     return p64(int.from_bytes(t, 'big') + 1)
+
+
+def m_obs(storage, oids, tids):
+    o = battery.observe(storage, oids, tids, 'M', iter_level=0)
+    out = {}
+    for q, v in o.items():
+        if q[0] in ('len', 'history', 'lastTransaction'):
+            continue
+        if q[0] == 'iterator' and not isinstance(v, Exc):
+            v = [(t[0], t[2], t[3], t[4], [r[:3] for r in t[5]]) for t in v]
+        out[q] = v
+    return out
+
+
+def m_node(w, hist, cfg, res):
+    """A MappingStorage as the source of a copy into a FileStorage."""
+    viol = []
+    n = 0
+    if not w.model.txns:
+        return 0, False, viol
+    m = w.model
+    oids, tids = m.oids(), m.tids()
+    want = m_obs(w.storage, oids, tids)
+    d = env.new_dir('cpm')
+    try:
+        for tag, kw in (('copy-M-to-F', {}),
+                        ('copy-M-to-Fb', dict(blob_dir=os.path.join(d, 'bl')))):
+            n += 1
+            res.clause('C17.copy')
+            p = os.path.join(d, tag + '.fs')
+            dest = FS()(p, **kw)
+            try:
+                r = call(dest.copyTransactionsFrom, w.storage)
+                if isinstance(r, Exc):
+                    viol.append(('copy', '%s:%s' % (tag, r.name),
+                                 dict(got=repr(r)[:200])))
+                    continue
+                for phase in ('', '-reopened'):
+                    got = m_obs(dest, oids, tids)
+                    if got != want:
+                        q = [k for k in want if want[k] != got.get(k)][0]
+                        viol.append(('copy', '%s%s:%s' % (tag, phase, q[0]),
+                                     dict(query=q, source=repr(want[q])[:300],
+                                          result=repr(got.get(q))[:300])))
+                        break
+                    dest.close()
+                    dest = FS()(p, **kw)
+            finally:
+                dest.close()
+    finally:
+        env.rm_dir(d)
+    if hist:
+        res.outcome(w.outcomes[-1])
+    seen, out = set(), []
+    for c, sg, dd in viol:
+        if (c, sg) not in seen:
+            seen.add((c, sg))
+            out.append((c, sg, dd))
+    return n, len(tids) >= 2, out
 
 
 # ------------------------------------------------------------- (c) damage
@@ -470,6 +532,10 @@ def run(rep, tier, seed, workers):
         'transactions')
     cfg = dict(prop='C17', kind='F')
     fps = seqx.explore(rep, MOD, cfg, depth, workers, seed, split=2)
+    cfg3 = dict(prop='C17', kind='M',
+                kinds=['new', 'mod', 'mod2', 'meta', 'empty'])
+    fps |= seqx.explore(rep, MOD, cfg3, depth - 1, workers, seed, split=1)
+    rep.bounds['copy from a MappingStorage: history depth'] = depth - 1
     cfg2 = dict(prop='C17', kind='F', start=MULTI)
     fps |= seqx.explore(rep, MOD, cfg2, depth - 1, workers, seed, split=1)
     rep.cov['states'] = max(len(fps), 1)
